@@ -1,9 +1,9 @@
 SPECIFICATION Spec
-CONSTANT Calls <- K3
+CONSTANT Calls <- KX
 CONSTANT Failing <- NoFail
 CONSTANT GiveBackOnFailure = FALSE
-CONSTANT Fix_SnapshotLookup = TRUE
-CONSTANT Fix_RegisterAtomic = FALSE
+CONSTANT Fix_SnapshotLookup = FALSE
+CONSTANT Fix_RegisterAtomic = TRUE
 CONSTANT Fix_ExplicitCheck = TRUE
 INVARIANT NoSharedId
 INVARIANT AutoIdsUnique
